@@ -1279,3 +1279,171 @@ func unnamedOnlyRule(R string) RuleFunc {
 		}
 	}
 }
+
+const presizePositive = `package positive
+type keys struct{ data []int }
+func (k *keys) set(v int) { k.data = append(k.data, v) }
+func copyKeys(from *keys) *keys {
+	k := &keys{data: make([]int, len(from.data))}
+	for _, v := range from.data {
+		k.set(v)
+	}
+	return k
+}
+func local(n int) []int {
+	out := make([]int, n)
+	for i := range out {
+		out[i] = i
+	}
+	return out
+}
+func localBad(n int) []int {
+	out := make([]int, n)
+	for i := 0; i < n; i++ {
+		out = append(out, i)
+	}
+	return out
+}
+`
+
+// presizedAppends finds slices created with a non-zero LENGTH (make([]T, n), no capacity) that are
+// then grown by append: the n zero values stay in front of the appended elements.
+func presizedAppends(pk *packages.Package, files []*ast.File, fd *ast.FuncDecl, appendedFields map[string]bool) []ast.Node {
+	var out []ast.Node
+	isLenMake := func(e ast.Expr) bool {
+		call, ok := ast.Unparen(e).(*ast.CallExpr)
+		if !ok || len(call.Args) != 2 {
+			return false
+		}
+		if id, ok := call.Fun.(*ast.Ident); !ok || id.Name != "make" {
+			return false
+		}
+		if tv, ok := pk.TypesInfo.Types[call.Args[0]]; !ok || tv.Type == nil {
+			return false
+		} else if _, isSlice := tv.Type.Underlying().(*types.Slice); !isSlice {
+			return false
+		}
+		if tv, ok := pk.TypesInfo.Types[call.Args[1]]; ok && tv.Value != nil && tv.Value.ExactString() == "0" {
+			return false
+		}
+		return true
+	}
+	// locals
+	ast.Inspect(fd.Body, func(n ast.Node) bool {
+		as, ok := n.(*ast.AssignStmt)
+		if !ok || len(as.Lhs) != 1 || len(as.Rhs) != 1 || !isLenMake(as.Rhs[0]) {
+			return true
+		}
+		name := core.ExprStr(as.Lhs[0])
+		indexed, appended := false, false
+		ast.Inspect(fd.Body, func(m ast.Node) bool {
+			switch x := m.(type) {
+			case *ast.AssignStmt:
+				for _, l := range x.Lhs {
+					if ix, ok := l.(*ast.IndexExpr); ok && core.ExprStr(ix.X) == name {
+						indexed = true
+					}
+				}
+				for _, r := range x.Rhs {
+					if call, ok := r.(*ast.CallExpr); ok && core.ExprStr(call.Fun) == "append" && len(call.Args) > 0 && core.ExprStr(call.Args[0]) == name {
+						appended = true
+					}
+				}
+			case *ast.CallExpr:
+				// handed to something that fills it (copy, Read, ...)
+				if core.ExprStr(x.Fun) != "append" && core.ExprStr(x.Fun) != "len" && core.ExprStr(x.Fun) != "cap" {
+					for _, a := range x.Args {
+						if core.ExprStr(a) == name || strings.HasPrefix(core.ExprStr(a), name+"[") {
+							indexed = true
+						}
+					}
+				}
+			}
+			return true
+		})
+		if appended && !indexed {
+			out = append(out, as)
+		}
+		return true
+	})
+	// fields of composite literals / field assignments whose methods append to the field
+	ast.Inspect(fd.Body, func(n ast.Node) bool {
+		switch x := n.(type) {
+		case *ast.KeyValueExpr:
+			if isLenMake(x.Value) && appendedFields[core.ExprStr(x.Key)] {
+				out = append(out, x)
+			}
+		case *ast.AssignStmt:
+			if len(x.Lhs) == 1 && len(x.Rhs) == 1 && isLenMake(x.Rhs[0]) {
+				if sel, ok := x.Lhs[0].(*ast.SelectorExpr); ok && appendedFields[sel.Sel.Name] {
+					out = append(out, x)
+				}
+			}
+		}
+		return true
+	})
+	return out
+}
+
+// appendedFieldNames: names of struct fields that some function grows with `x.f = append(x.f, ...)`.
+func appendedFieldNames(files []*ast.File) map[string]bool {
+	out := map[string]bool{}
+	for _, f := range files {
+		ast.Inspect(f, func(n ast.Node) bool {
+			as, ok := n.(*ast.AssignStmt)
+			if !ok || len(as.Lhs) != 1 || len(as.Rhs) != 1 {
+				return true
+			}
+			sel, ok := as.Lhs[0].(*ast.SelectorExpr)
+			if !ok {
+				return true
+			}
+			if call, ok := as.Rhs[0].(*ast.CallExpr); ok && core.ExprStr(call.Fun) == "append" && len(call.Args) > 0 && core.ExprStr(call.Args[0]) == core.ExprStr(as.Lhs[0]) {
+				out[sel.Sel.Name] = true
+			}
+			return true
+		})
+	}
+	return out
+}
+
+// presizeRule: a slice that is filled by append starts empty.
+func presizeRule(R string) RuleFunc {
+	return func(c *core.Ctx) {
+		c.Rule(R, "a slice created with a LENGTH (`make([]T, n)`, n not the constant 0, no capacity argument) is filled by index or by a filling call (copy, Read); it is never grown by append - neither in the same function nor, when it initialises a struct field, by the methods that append to that field. Otherwise the n zero values stay in front of the real elements: a copied object gets n empty keys before its n keys (`{\"\":1,\"\":{...}}`, `Duplicate key \"\"`), a set reports blank members. Expected count 0; the matcher is exercised on a built-in example")
+		c.Floor(R, 2)
+		pp, err := positivePkg(presizePositive)
+		if err != nil {
+			c.Bad(R, "positive-example", "-", "built-in example", "does not type-check: "+err.Error())
+			return
+		}
+		pf := appendedFieldNames(pp.Syntax)
+		hits := map[string]int{}
+		for _, d := range pp.Syntax[0].Decls {
+			if fd, ok := d.(*ast.FuncDecl); ok && fd.Body != nil {
+				hits[fd.Name.Name] = len(presizedAppends(pp, pp.Syntax, fd, pf))
+			}
+		}
+		c.Check(hits["copyKeys"] == 1 && hits["localBad"] == 1 && hits["local"] == 0, R, "positive-example", "-", "the matcher reports the built-in pre-sized field and local that are appended to, not the indexed fill", core.F("matcher broken: %v", hits))
+		// field names appended anywhere in the module, per package
+		byPkg := map[*packages.Package]map[string]bool{}
+		n, funcs := 0, 0
+		for _, d := range c.P.FuncDecls() {
+			if d.Decl.Body == nil {
+				continue
+			}
+			funcs++
+			af, ok := byPkg[d.Pkg]
+			if !ok {
+				af = appendedFieldNames(d.Pkg.Syntax)
+				byPkg[d.Pkg] = af
+			}
+			for _, nd := range presizedAppends(d.Pkg, d.Pkg.Syntax, d.Decl, af) {
+				n++
+				fn := core.DeclName(d.Pkg, d.Decl)
+				c.Bad(R, fn+":presized", c.P.Pos(nd.Pos()), "pre-sized slice grown by append in "+fn, "make([]T, n) gives n zero values; the elements appended afterwards come behind them")
+			}
+		}
+		c.OKd(R, "inventory", "-", core.F("%d functions scanned", funcs), core.F("%d pre-sized slices grown by append", n))
+	}
+}
